@@ -103,6 +103,10 @@ pub const TX3C: &str = "/verif/sim/target-tx3c/release/tx3c";
 pub const SHIM: &str = "/verif/sim/target/getrandom_shim.so";
 
 fn run_tx3c(src_path: &str, out_path: &str, hseed: u64) -> Result<Vec<u8>, String> {
+    run_tx3c_keep(src_path, out_path, hseed, false)
+}
+
+fn run_tx3c_keep(src_path: &str, out_path: &str, hseed: u64, keep: bool) -> Result<Vec<u8>, String> {
     let st = Command::new(TX3C)
         .arg("build")
         .arg(src_path)
@@ -120,7 +124,9 @@ fn run_tx3c(src_path: &str, out_path: &str, hseed: u64) -> Result<Vec<u8>, Strin
         return Err(format!("tx3c exited with {st}"));
     }
     let b = std::fs::read(out_path).map_err(|e| format!("no tii written: {e}"))?;
-    let _ = std::fs::remove_file(out_path);
+    if !keep {
+        let _ = std::fs::remove_file(out_path);
+    }
     Ok(b)
 }
 
@@ -144,6 +150,7 @@ pub fn world_c18(tier: Tier, world_no: u64, mut t: Tape) -> WorldReport {
                 force_min_utxo: None,
                 rich_directives: true,
                 optional_bias: false,
+            datum_bias: false,
             },
         );
         (format!("generated-{world_no}"), p.source(), false)
@@ -320,6 +327,51 @@ pub fn world_c18(tier: Tier, world_no: u64, mut t: Tape) -> WorldReport {
             let out = dir.join(format!("out{i}.tii"));
             l2.push(run_tx3c(src_path.to_str().unwrap(), out.to_str().unwrap(), seeds[i]));
             rep.fire("process-hseed");
+        }
+        // ---- L4: build history on one output path.  Another (usually larger) program is built to
+        // the path first, then the program itself: the artifact must be the one a fresh path gets.
+        if let Some(Ok(first)) = l2.first() {
+            let mut by_len: Vec<&(String, String)> = examples.iter().collect();
+            by_len.sort_by_key(|(_, s)| std::cmp::Reverse(s.len()));
+            let hist_src = if t.chance(1, 2) && !by_len.is_empty() {
+                by_len[t.index(by_len.len().min(6))].1.clone()
+            } else {
+                // the program followed by every transaction once more under another name
+                let mut h = source.clone();
+                if let Some(at) = source.find("\ntx ") {
+                    h.push_str(&source[at..].replace("\ntx ", "\ntx again_"));
+                }
+                h
+            };
+            let hist_path = dir.join("hist.tx3");
+            let _ = std::fs::write(&hist_path, &hist_src);
+            let out = dir.join("same.tii");
+            let h = run_tx3c_keep(hist_path.to_str().unwrap(), out.to_str().unwrap(), seeds[0], true);
+            if let Ok(hbytes) = h {
+                rep.fire("output-path-history");
+                if hbytes.len() > first.len() {
+                    rep.probe("history-artifact-larger");
+                }
+                match run_tx3c_keep(src_path.to_str().unwrap(), out.to_str().unwrap(), seeds[0], true) {
+                    Ok(again) => {
+                        if &again != first {
+                            rep.violate(
+                                "C18",
+                                "L4-path-history",
+                                if hbytes.len() > first.len() { "over-a-larger-artifact" } else { "over-a-smaller-artifact" },
+                                format!(
+                                    "`{name}`: `tx3c build --emit tii` onto a path that already held another artifact ({} bytes) wrote {} bytes that differ from the {} bytes written to a fresh path under the same hash seed",
+                                    hbytes.len(),
+                                    again.len(),
+                                    first.len()
+                                ),
+                            );
+                        }
+                    }
+                    Err(e) => rep.violate("C18", "L4-path-history", "fails-over-existing-artifact", format!("`{name}`: tx3c fails when the output path already holds an artifact: {e}")),
+                }
+                rep.evaluations += 1;
+            }
         }
         let _ = std::fs::remove_dir_all(&dir);
         rep.evaluations += nproc as u64;
